@@ -60,6 +60,7 @@ type RunOut struct {
 	Cfg        json.RawMessage
 	Sample     interface{}
 	Rel        []relRec
+	NoTwin     bool // (C14) the run's initial sequence number did not land where it was placed: no twin comparison
 }
 
 // Scenario is one simulated world kind.
@@ -381,7 +382,7 @@ func runSc(sc Scenario, t *testing.T, prop string, seed uint64, cfg json.RawMess
 	}
 	defer func() { pendingReplay = nil }()
 	o := sc.Run(t, prop, seed, cfg, steps, tape, trace)
-	if n, ok := sc.(Neutraliser); ok && prop == "C14" && o.Viol == nil {
+	if n, ok := sc.(Neutraliser); ok && prop == "C14" && o.Viol == nil && !o.NoTwin {
 		// the neutral twin: same seed, steps and tape, initial sequence numbers mid-space
 		st, tp := o.Steps, o.Tape
 		if st == nil {
